@@ -122,7 +122,7 @@ def sym(ctx, cfg):
             F.set = OSet
             F._parse_fasta_files = lambda files: list(entries)
             F._parse_protein = lambda e: (e, e)
-            F.digest = lambda seq, **kw: OSet(pepsets[seq])
+            F.digest = lambda seq, *a, **kw: OSet(pepsets[seq])
             tag = "[order=%s,sets=%s]" % ("".join(map(str, order)), mode)
             try:
                 prot = F.read_fasta("ignored.fasta", decoy_prefix=PREFIX)
